@@ -11,4 +11,5 @@ CONSTANTS
   BoundIdx = {1}
 INIT Init
 NEXT Next
+INVARIANT Emit
 CHECK_DEADLOCK FALSE
